@@ -201,12 +201,39 @@ def _num_value(nj, as_int=False):
     return Decimal((1 if nj["neg"] else 0, tuple(int(c) for c in str(n)), nj["exp"]))
 
 
+_PARSED = {}
+_parsed_toggle = [0]
+
+
+def register_parsed(d, q):
+    """`d` is the dump of the tree the parser gave for the text `q`"""
+    _PARSED[id(d)] = (d, q)
+
+
 def load_tree(d):
-    """JSON dict -> luqum item (built through the public constructors)"""
+    """JSON dict -> luqum item (built through the public constructors). For the dump of a PARSED query, every other
+    call hands out the parser's own object instead (a fresh parse of the same text, checked to dump identically): the
+    properties speak of parsed queries, and an object the parser built need not be in the state the public
+    constructors leave one in (seeded C11-G: the parser passes numerals as text, a copy passes numbers)."""
+    reg = _PARSED.get(id(d))
+    if reg is not None and reg[0] is d:
+        _parsed_toggle[0] ^= 1
+        if _parsed_toggle[0]:
+            I = impl()
+            try:
+                t = I.parser.parser.parse(reg[1], lexer=I.parser.lexer)
+            except Exception:
+                t = None
+            if t is not None and dump_tree(t) == d:
+                return t
+    return _load_tree(d)
+
+
+def _load_tree(d):
     T = impl().tree
     c = d["c"]
     kw = {"pos": d.get("p"), "size": d.get("s"), "head": d.get("h") or "", "tail": d.get("t") or ""}
-    ch = [load_tree(x) for x in d.get("ch", [])]
+    ch = [_load_tree(x) for x in d.get("ch", [])]
     if c in ("Word", "Phrase", "Regex"):
         node = getattr(T, c)(d["v"], **kw)
     elif c == "SearchField":
